@@ -424,7 +424,7 @@ class DependencyTools():
     # -------------------------------------------------------------------------
     @staticmethod
     def _independent_multi_subscript(var_name, write_access, other_access,
-                                     subscripts):
+                                     subscripts, other_loop_vars=None):
         '''Test multiple subscripts that share variables. This includes cases
         like `a(i,i) = a(i,i+1)` or `a(i, indx(i)) = a(i,5)` etc.
         At this stage only a minimal test is done: if there is one subscript
@@ -445,6 +445,10 @@ class DependencyTools():
             ComponentIndices class) which are all handled together because
             of shared loop variables.
         :type subscripts: List[Tuple(int,int)]
+        :param other_loop_vars: the names of the other loop variables of the
+            loop nest (whose values also change within one iteration of the
+            loop to be parallelised).
+        :type other_loop_vars: Optional[List[str]]
 
         :returns: whether the two accesses can be parallelised or not.
         :type: bool
@@ -454,9 +458,21 @@ class DependencyTools():
         # parallelised. E.g. `a(i, index(i)) = a(i, 5)`. The fact that
         # the first subscript is i, means that each different iteration
         # will access a different column, even if index(i) is 5.
+        other_loop_vars = set(other_loop_vars) if other_loop_vars else set()
         for ind in subscripts:
             index_written = write_access.component_indices[ind]
             index_other = other_access.component_indices[ind]
+            if other_loop_vars:
+                # A subscript that also depends on another loop variable
+                # proves nothing: in `a(i+j, i+j)` a different `j` can
+                # compensate for a different `i`.
+                used = set()
+                for index_expr in (index_written, index_other):
+                    for sig in VariablesAccessInfo(
+                            index_expr).all_signatures:
+                        used.add(str(sig))
+                if used & other_loop_vars:
+                    continue
             distance = DependencyTools._get_dependency_distance(var_name,
                                                                 index_written,
                                                                 index_other)
@@ -547,10 +563,9 @@ class DependencyTools():
             else:
                 # This is reached only if there is more than one subscript in
                 # which one or several variables are used
-                indep = self._independent_multi_subscript(loop_var,
-                                                          write_access,
-                                                          other_access,
-                                                          subscripts)
+                indep = self._independent_multi_subscript(
+                    loop_var, write_access, other_access, subscripts,
+                    loop_variables[1:])
                 if indep:
                     return True
 
